@@ -91,6 +91,16 @@ def r_AutoPyDiscipline_fd(env):
     return AutoPyDiscipline(py_f)
 
 
+def r_AnalyticDiscipline_4(env):
+    """Expressions with 4 inputs, not symmetric in them (the order in which a restored object feeds its compiled
+    expressions matters), with non-zero defaults."""
+    from gemseo.disciplines.analytic import AnalyticDiscipline
+
+    d = AnalyticDiscipline({"y": "a - 2*b + 3*c**2 + 5*d*a", "z": "b/(1+c**2) - d", "w": "exp(a/4) - b*c + d**3"}, name="ana4")
+    d.default_input_data.update({"a": np.array([1.5]), "b": np.array([-2.0]), "c": np.array([0.75]), "d": np.array([4.0])})
+    return d
+
+
 def r_AnalyticDiscipline_ns(env):
     """With namespaces on an input and an output."""
     d = _analytic()
@@ -386,6 +396,7 @@ def r_MDOObjectiveScenarioAdapter(env):
 EXTRA = {
     "AnalyticDiscipline": r_AnalyticDiscipline,
     "AnalyticDiscipline/namespaces": r_AnalyticDiscipline_ns,
+    "AnalyticDiscipline/4inputs": r_AnalyticDiscipline_4,
     "AutoPyDiscipline": r_AutoPyDiscipline,
     "AutoPyDiscipline/fd": r_AutoPyDiscipline_fd,
     "ArrayBasedFunctionDiscipline": r_ArrayBasedFunctionDiscipline,
@@ -435,6 +446,160 @@ ITERATIVE = {
 }
 
 
+# ---- one-at-a-time deviations of the constructor settings -----------------------------------------------
+# A setting kept as an attribute may act through a member that is not serialized but re-created at restore; the
+# default value hides a re-creation that forgets it.  "Class@param=value" is a subject built with that one deviation.
+def _alt(value):
+    """A small alternative to a default value (None: no alternative is derived automatically)."""
+    import enum
+
+    if isinstance(value, bool):
+        return not value
+    if isinstance(value, enum.Enum):
+        members = list(type(value))
+        return members[(members.index(value) + 1) % len(members)] if len(members) > 1 else None
+    if isinstance(value, int):
+        return value + 1
+    if isinstance(value, float):
+        return value * 1.5 + 0.25
+    return None
+
+
+_SKIP_PARAMS = ("delay", "name", "log", "n_processes", "use_threading")
+
+
+def auto_deviations(class_name):
+    """(label, kwargs) for every constructor parameter of a class built without arguments that has a derivable alternative."""
+    import enum
+    import inspect
+
+    cls = _factory().get_class(class_name)
+    out = []
+    try:
+        params = inspect.signature(cls.__init__).parameters
+    except (TypeError, ValueError):
+        return out
+    for pname, prm in params.items():
+        if pname == "self" or prm.default is inspect.Parameter.empty or prm.kind in (prm.VAR_KEYWORD, prm.VAR_POSITIONAL) or any(k in pname for k in _SKIP_PARAMS):
+            continue
+        alt = _alt(prm.default)
+        if alt is None:
+            continue
+        shown = alt.value if isinstance(alt, enum.Enum) else alt
+        out.append((f"{class_name}@{pname}={shown}", {pname: alt}))
+    return out
+
+
+def _mk(f, *a, **kw):
+    return lambda env: f(*a, **kw)
+
+
+def _fea(**kw):
+    from gemseo.problems.topology_optimization.fea_disc import FiniteElementAnalysis
+
+    return FiniteElementAnalysis(**{**dict(n_x=4, n_y=3, f_node=19, fixed_nodes=[0, 1, 2, 3], fixed_dir=[0, 1, 0, 1]), **kw})
+
+
+def _mmi(**kw):
+    from gemseo.problems.topology_optimization.material_model_interpolation_disc import MaterialModelInterpolation
+
+    return MaterialModelInterpolation(**{**dict(e0=1, penalty=3.0, n_x=4, n_y=3, empty_elements=[], full_elements=[]), **kw})
+
+
+def _adapter(cls_name, **kw):
+    import importlib
+
+    mod = {"MDOScenarioAdapter": "mdo_scenario_adapter", "MDOObjectiveScenarioAdapter": "mdo_objective_scenario_adapter"}[cls_name]
+    cls = getattr(importlib.import_module(f"gemseo.disciplines.scenario_adapters.{mod}"), cls_name)
+    return cls(_sub_scenario(), ["p"], ["f", "x"] if cls_name == "MDOScenarioAdapter" else ["f"], **{"reset_x0_before_opt": True, **kw})
+
+
+def _dev_misc(which):
+    if which == "LinearDiscipline@matrix_free_jacobian=True":
+        from gemseo.problems.mdo.scalable.linear.linear_discipline import LinearDiscipline
+
+        return LinearDiscipline("Lf", ["i1", "i2"], ["o1", "o2"], inputs_size=2, outputs_size=3, matrix_free_jacobian=True)
+    if which == "AutoPyDiscipline@use_arrays=True":
+        from gemseo.disciplines.auto_py import AutoPyDiscipline
+
+        return AutoPyDiscipline(cstr, cstr_jac, use_arrays=True)
+    if which.startswith("FilteringDiscipline@"):
+        from gemseo.disciplines.wrappers.filtering_discipline import FilteringDiscipline
+
+        return FilteringDiscipline(_analytic(), input_names=["x"], output_names=["y"], keep_in="keep_in" not in which, keep_out="keep_out" not in which)
+    if which.startswith("ConstraintAggregation@"):
+        from gemseo.disciplines.constraint_aggregation import ConstraintAggregation
+
+        fn = which.split("=")[1]
+        d = ConstraintAggregation(["g"], fn, **({"rho": 5.0} if "KS" in fn else {}))
+        d.default_input_data.update({"g": np.array([0.3, -1.0, 0.5])})
+        return d
+    if which == "SurrogateDiscipline@transformer={}":
+        from gemseo.disciplines.surrogate import SurrogateDiscipline
+
+        return SurrogateDiscipline("LinearRegressor", _dataset(), transformer={})
+    if which == "DensityFilter@min_member_size=2.5":
+        from gemseo.problems.topology_optimization.density_filter_disc import DensityFilter
+
+        return DensityFilter(n_x=4, n_y=3, min_member_size=2.5)
+    if which == "VolumeFraction@empty_elements=[0]":
+        from gemseo.problems.topology_optimization.volume_fraction_disc import VolumeFraction
+
+        return VolumeFraction(n_x=4, n_y=3, empty_elements=[0], full_elements=[5])
+    if which.startswith("OscillatorDiscipline@"):
+        from gemseo.problems.ode.oscillator_discipline import OscillatorDiscipline
+
+        return OscillatorDiscipline(omega=2.0, times=np.linspace(0.0, 1.0, 5), return_trajectories=True)
+    if which.startswith("ODEDiscipline@"):
+        from gemseo.disciplines.auto_py import AutoPyDiscipline
+        from gemseo.disciplines.ode.ode_discipline import ODEDiscipline
+
+        return ODEDiscipline(AutoPyDiscipline(rhs), times=np.linspace(0.0, 1.0, 5), ode_solver_name="RK23")
+    if which == "MDOParallelChain@use_deep_copy=True":
+        from gemseo.core.chains.parallel_chain import MDOParallelChain
+        from gemseo.disciplines.analytic import AnalyticDiscipline
+
+        return MDOParallelChain([_analytic(), AnalyticDiscipline({"s": "2*x-z**2"}, name="ana2")], name="pchain", n_processes=2, use_deep_copy=True)
+    if which == "RemappingDiscipline@components":
+        from gemseo.disciplines.remapping import RemappingDiscipline
+
+        return RemappingDiscipline(r_ArrayBasedFunctionDiscipline(None), {"X1": "x1", "X2a": ("x2", 0), "X2b": ("x2", 1)}, {"Y1a": ("y1", 0), "Y1b": ("y1", 1), "Y2": "y2"})
+    raise KeyError(which)
+
+
+MANUAL_DEVIATIONS = {
+    "MDAGaussSeidel@over_relaxation_factor=0.9": _mk(_mda, "MDAGaussSeidel", over_relaxation_factor=0.9),
+    "MDAGaussSeidel@acceleration_method=Secant": _mk(_mda, "MDAGaussSeidel", acceleration_method="Secant"),
+    "MDAGaussSeidel@use_lu_fact=True": _mk(_mda, "MDAGaussSeidel", use_lu_fact=True),
+    "MDAGaussSeidel@linear_solver=LGMRES": _mk(_mda, "MDAGaussSeidel", linear_solver="LGMRES"),
+    "MDAJacobi@acceleration_method=NoTransformation": _mk(_mda, "MDAJacobi", n_processes=1, acceleration_method="NoTransformation"),
+    "MDANewtonRaphson@over_relaxation_factor=0.95": _mk(_mda, "MDANewtonRaphson", True, over_relaxation_factor=0.95),
+    "MDAChain@inner_mda_name=MDAGaussSeidel": _mk(_mda, "MDAChain", inner_mda_name="MDAGaussSeidel"),
+    "MDOScenarioAdapter@set_x0_before_opt=True": _mk(_adapter, "MDOScenarioAdapter", reset_x0_before_opt=False, set_x0_before_opt=True),
+    "MDOScenarioAdapter@output_multipliers=True": _mk(_adapter, "MDOScenarioAdapter", output_multipliers=True),
+    "MDOScenarioAdapter@keep_opt_history=True": _mk(_adapter, "MDOScenarioAdapter", keep_opt_history=True),
+    "MDOObjectiveScenarioAdapter@set_bounds_before_opt=True": _mk(_adapter, "MDOObjectiveScenarioAdapter", set_bounds_before_opt=True),
+    "FiniteElementAnalysis@nu=0.4": _mk(_fea, nu=0.4),
+    "MaterialModelInterpolation@penalty=2.0": _mk(_mmi, penalty=2.0),
+    "MaterialModelInterpolation@contrast=1000.0": _mk(_mmi, contrast=1e3),
+}
+for _w in ("LinearDiscipline@matrix_free_jacobian=True", "AutoPyDiscipline@use_arrays=True", "FilteringDiscipline@keep_in=False", "FilteringDiscipline@keep_out=False",
+           "ConstraintAggregation@aggregation_function=upper_bound_KS", "ConstraintAggregation@aggregation_function=IKS", "ConstraintAggregation@aggregation_function=POS_SUM",
+           "SurrogateDiscipline@transformer={}", "DensityFilter@min_member_size=2.5", "VolumeFraction@empty_elements=[0]", "OscillatorDiscipline@return_trajectories=True",
+           "ODEDiscipline@ode_solver_name=RK23", "MDOParallelChain@use_deep_copy=True", "RemappingDiscipline@components"):
+    MANUAL_DEVIATIONS[_w] = _mk(_dev_misc, _w)
+
+
+def deviation_names():
+    """Every "Class@param=value" subject: automatic ones for the classes built without arguments + the manual table."""
+    out = []
+    for c in sorted(_factory().class_names):
+        if c in NOT_BUILT or any(k == c or k.startswith(c + "/") for k in EXTRA):
+            continue
+        out += [label for label, _ in auto_deviations(c)]
+    return out + list(MANUAL_DEVIATIONS)
+
+
 def subject_names():
     """Every class of the two factories -> list of subject names (a class may have several recipes)."""
     from gemseo.mda.factory import MDAFactory
@@ -455,4 +620,9 @@ def build(name, env=None):
     np.random.seed(20)
     if name in EXTRA:
         return EXTRA[name](env)
+    if name in MANUAL_DEVIATIONS:
+        return MANUAL_DEVIATIONS[name](env)
+    if "@" in name:
+        cls = name.split("@")[0]
+        return _factory().create(cls, **dict(auto_deviations(cls))[name])
     return _factory().create(name)
